@@ -12,7 +12,7 @@ os.chdir(os.path.dirname(os.path.abspath(__file__)))
 assert not [l for l in subprocess.run(["git", "-C", "/repo", "status", "--short"], capture_output=True, text=True).stdout.splitlines() if "issue-50" not in l], "/repo is dirty"
 m = json.load(open("seeded/MATRIX.json"))
 for prop in sys.argv[1:]:
-    for d in sorted(glob.glob(f"seeded/{prop}-[ABCD]")):
+    for d in sorted(glob.glob(f"seeded/{prop}-[ABCDE]")):
         sid = os.path.basename(d)
         patch = os.path.abspath(os.path.join(d, "patch.diff"))
         status = json.load(open(os.path.join(d, "meta.json"))).get("status", "")[:11]
